@@ -30,7 +30,9 @@ EXPLANATION = (
     "is checked for agreement between the wrapper it calls, the mode it stores in the runtime state, the "
     "marker types of the value it constructs, and for the store being dominated by the wrapper's Ok edge. "
     "Drop order and guard-page offsets are checked as reachability/ordering facts between call sites. "
-    "CLONE-COPY/CLONE-LEN: the value returned by every Clone impl of a protected region depends on the contents "
+    "MODE must-call: no Ok return of a transition is reachable without the wrapper's Ok edge or an edge on which the "
+    "recorded mode already is the target mode. EMPTY-GUARD: the wrappers agree on having an Ok return that asks the "
+    "OS nothing (the empty-region shortcut). CLONE-COPY/CLONE-LEN: the value returned by every Clone impl of a protected region depends on the contents "
     "of self (a dependency through its length alone does not count), and a fresh region is resized to self.len() "
     "before copy_from_slice.")
 NOT_DECIDED = (
@@ -212,6 +214,28 @@ def check(ctx, rep, cfg):
     for need in [("protect", "ReadOnly"), ("protect", "ReadWrite"), ("protect", "NoAccess"), ("lock", "Locked"), ("lock", "Unlocked")]:
         rep.ob("MODE", "wrapper exists: %s %s%s" % (need[0], need[1], tag), need in kinds_seen,
                "wrappers found: %s" % sorted(kinds_seen))
+    # EMPTY-GUARD (sibling agreement): an empty region has no pages of its own (a never-allocated container hands
+    # out a dangling, unaligned pointer), so the wrappers return Ok for it without asking the OS.  Whatever the
+    # wrappers do about it they do alike: a wrapper that has lost the shortcut its siblings have makes one
+    # transition fail (EINVAL) where all the others succeed.
+    short = {}
+    for k, kinds in sorted(ws.items()):
+        f = prog._c14_views[k]
+        if not _wrapper_shape(prog.by_key[k]):
+            continue
+        from ..expr import result_kind_of_ret
+        libc_blocks = [c.bb for c, name, flag in kinds]
+        free_ = f.reachable(0, cut_blocks=libc_blocks)
+        short[k] = any(b_ in free_ for b_, k_, e_ in result_kind_of_ret(f) if k_ != "err")
+    if short:
+        maj = sum(1 for v in short.values() if v) * 2 >= len(short)
+        for k, v in sorted(short.items()):
+            f = prog._c14_views[k]
+            rep.ob("EMPTY-GUARD", f.path + tag, v == maj,
+                   "%s an Ok return that asks the OS nothing (the empty-region shortcut), like %d of its %d siblings" % (
+                       "has" if v else "has NOT", sum(1 for x in short.values() if x == v) - 1, len(short) - 1) if v == maj else
+                   "%s the Ok-without-OS-call shortcut for the empty region that %d of the %d wrappers %s" % (
+                       "lacks" if maj else "has", sum(1 for x in short.values() if x == maj), len(short), "have" if maj else "lack"), loc=f.loc())
     transitions(rep, prog, ws, tag)
     drop_order(rep, prog, ws, tag)
     guard_pages(rep, prog, ws, tag)
@@ -341,6 +365,16 @@ def transitions(rep, prog, ws, tag):
                        "the state update %s the Ok edge of the wrapper call%s" % ("is dominated by" if dominated else "is NOT dominated by",
                                                                                   "" if dominated else " (nor by an edge on which the recorded mode already is %s)" % mode),
                        loc=g.loc(bb))
+            # must-call: no Ok-capable return of the function holding the wrapper call is reachable without passing
+            # the wrapper's Ok edge - or an edge on which the recorded mode already is the wrapper's mode
+            if g.locals[0].get("path") == "std::result::Result" and good:
+                from ..expr import result_kind_of_ret
+                free_ = g.reachable(0, cut_edges=list(good) + list(already))
+                bad_ = [b_ for b_, k_, e_ in result_kind_of_ret(g) if k_ != "err" and b_ in free_]
+                rep.ob("MODE", inst + "|must-call", not bad_,
+                       "every Ok return lies behind the Ok edge of the wrapper call%s" % (" or an edge on which the recorded mode already is %s" % mode if already else "") if not bad_ else
+                       "an Ok return at %s is reachable without the wrapper call having succeeded and without the recorded mode being known to be %s: "
+                       "the type says %s, the pages may not be" % (g.loc(bad_[0]), mode, mode), loc=g.loc(bad_[0]) if bad_ else c.loc())
             # constructed value's marker = declared (Protected::<A, PM, LM>::new())
             for cc in g.calls():
                 if cc.name == "new" and "Protected::<" in cc.full:
